@@ -80,8 +80,15 @@ impl TargetWatcher {
         let watcher_config = Config::default().with_poll_interval(Duration::from_millis(100));
         Watcher::new(
             move |result: notify::Result<notify::Event>| {
-                let relevant_files = result
-                    .unwrap()
+                let event = match result {
+                    Ok(event) => event,
+                    Err(e) => {
+                        // This closure runs on the watcher thread: a panic here would silently end watching
+                        log::warn!("{} - File watch error: {}", &target_id, e);
+                        return;
+                    }
+                };
+                let relevant_files = event
                     .paths
                     .into_iter()
                     .filter(|path| {
@@ -114,8 +121,11 @@ impl TargetWatcher {
 }
 
 fn is_tmp_editor_file(file_path: &Path) -> bool {
-    let file_name = file_path.file_name().unwrap();
-    let file_name = file_name.to_str().unwrap();
+    // File names are arbitrary bytes: never panic on a name that has no file name part or is not UTF-8
+    let file_name = match file_path.file_name() {
+        Some(file_name) => file_name.to_string_lossy(),
+        None => return false,
+    };
 
     if file_name.ends_with('~') {
         return true; // IntelliJ IDEA
